@@ -278,3 +278,10 @@ def run(repo: Repo, rep: Report, tier: str) -> None:
     from .c03 import check_ready_probe
     rep.rule("ready-probe", "the readiness probe sees an A-RELEASE-RQ sitting in the TLS buffer of any SSLSocket, whichever side wrapped it (C03's rule)")
     check_ready_probe(repo, rep, "ready-probe")
+
+    # ---- the provider must survive until the answer is out ------------------------------------------
+    # between the release indication (Sta8) and the A-RELEASE-RP the provider thread has to stay alive:
+    # C05's artim rule decides that ARTIM cannot report expiry in a state without an Evt18 row
+    from ..delegate import delegate
+    rep.rule("provider-survives", "ARTIM cannot expire in the release states (Sta7-Sta12) unless Table 9-10 defines Evt18 there (C05's artim rule)")
+    delegate(repo, rep, tier, "C05", ("artim",), "provider-survives", "the provider thread dies between the peer's A-RELEASE-RQ and pynetdicom's answer: neither A-RELEASE-RP nor A-ABORT is ever sent", only=lambda f: any(f"Sta{k}" in (f["key"].get("stmt", "") + f["detail"]) for k in (7, 8, 9, 10, 11, 12)))
